@@ -83,8 +83,12 @@ class Acc:
             self.samples.append(s)
 
     def violation(self, sig, detail):
-        if len(self.violations) < 200:
+        # keep a few occurrences PER SIGNATURE (a frequent known finding must never crowd out
+        # a new signature found later in the same chunk)
+        k = "violations_raw:" + sig
+        if self.counters.get(k, 0) < 5:
             self.violations.append((sig, detail))
+        self.count(k)
         self.count("violations_raw")
 
     def merge(self, other):
